@@ -120,7 +120,7 @@ def run(ctx):
             sfaults += 1
             continue
         sig = "c05:stale:%s:%s" % (why, d["role"])
-        ctx.violation("something of the previous generation (abandoned receive goroutine / T7 dwell timer) disturbed its successor (%s): %s" % (sig, common.short(d, 500)),
+        ctx.violation("something of the previous generation (abandoned receive goroutine / blocked writer / T7 dwell timer) disturbed its successor (%s): %s" % (sig, common.short(d, 500)),
                       dict(binding="B2 gated e2e (blocked handler across a bounded teardown)", signature=sig, observation=d))
     if sfaults > sres["lines"] // 2:
         raise common.Inconclusive("stale-generation scenarios could not be set up (%d of %d)" % (sfaults, sres["lines"]))
